@@ -1,0 +1,92 @@
+//go:build verif
+
+package workerapi
+
+// Contracts for govc (see /verif/DESIGN.md). Comments only; compiled only with -tags verif.
+
+//@ func parseBearerToken
+//@   ensures [C11:grpc_bearer_shape] result1 ==> len(trim(raw)) >= 7 && lower(substr(trim(raw), 0, 7)) == "bearer " && result0 == trim(substr(trim(raw), 7, len(trim(raw)))) && result0 != ""
+//@   ensures [C11:grpc_bearer_complete] len(trim(raw)) >= 7 && lower(substr(trim(raw), 0, 7)) == "bearer " && trim(substr(trim(raw), 7, len(trim(raw)))) != "" ==> result1
+//@   ensures [C11:grpc_reject_empty] !result1 ==> result0 == ""
+
+//@ func BearerTokenAuthorizer
+//@   modifies lastAllowed
+//@   sets lastAllowed := local(allowed)
+//@   loop 1 invariant [bounds] rangeindex < len(tokens)
+//@   loop 1 invariant [only_nonempty_inputs] forall k int :: 0 <= k && k < len(allowed) ==> len(allowed[k]) > 0 && (exists j int :: 0 <= j && j <= rangeindex && tokens[j] == allowed[k])
+//@   loop 1 invariant [all_nonempty_inputs] forall j int :: 0 <= j && j <= rangeindex && len(tokens[j]) > 0 ==> tokenListed(allowed, tokens[j])
+//@   ensures [C11:allowlist_is_exactly_the_nonempty_tokens] (forall k int :: 0 <= k && k < len(lastAllowed) ==> len(lastAllowed[k]) > 0 && (exists j int :: 0 <= j && j < len(tokens) && tokens[j] == lastAllowed[k])) && (forall j int :: 0 <= j && j < len(tokens) && len(tokens[j]) > 0 ==> tokenListed(lastAllowed, tokens[j]))
+
+//@ spec
+//@ pred grpcBearerOK(raw string) := len(trim(raw)) >= 7 && lower(substr(trim(raw), 0, 7)) == "bearer " && trim(substr(trim(raw), 7, len(trim(raw)))) != ""
+//@ func grpcBearerToken(raw string) string := trim(substr(trim(raw), 7, len(trim(raw))))
+
+//@ func BearerTokenAuthorizer$1
+//@   loop 1 invariant [none_before] len(allowed) > 0 && forall j int :: 0 <= j && j <= rangeindex ==> !(grpcBearerOK(values[j]) && tokenListed(allowed, grpcBearerToken(values[j])))
+//@   loop 2 invariant [outer] len(allowed) > 0 && 0 <= rangeindex1 && rangeindex1 < len(values) && raw == values[rangeindex1] && grpcBearerOK(raw) && gb == grpcBearerToken(raw) && (forall j int :: 0 <= j && j < rangeindex1 ==> !(grpcBearerOK(values[j]) && tokenListed(allowed, grpcBearerToken(values[j]))))
+//@   loop 2 invariant [inner_none] forall k int :: 0 <= k && k <= rangeindex2 ==> allowed[k] != gb
+//@   ensures [C11:open_only_without_tokens] len(allowed) == 0 ==> result
+//@   ensures [C11:accept_implies_listed_token] len(allowed) > 0 && result ==> ext2("google.golang.org/grpc/metadata.FromIncomingContext", "$1", ctx) && (let vals := ext("google.golang.org/grpc/metadata.(MD).Get", ext2("google.golang.org/grpc/metadata.FromIncomingContext", "$0", ctx), "authorization") :: exists j int :: 0 <= j && j < len(vals) && grpcBearerOK(vals[j]) && tokenListed(allowed, grpcBearerToken(vals[j])))
+
+// ---- C11 / C04 (gRPC layer) ----
+
+//@ func workerapi/proto.*
+//@   trusted
+
+//@ fieldfunc workerapi.Server.Authorize(ctx, endpoint) (ok)
+//@   modifies authzCalls, authzResult, authzEndpoint
+//@   ensures authzCalls == old(authzCalls) + 1 && authzResult == ok && authzEndpoint == endpoint
+
+//@ fieldfunc workerapi.Server.ResolveRoute(endpoint) (route, ok)
+
+//@ func normalizeLeaseIDs
+//@   trusted
+//@   ensures result2 == nil && !result1 ==> len(result0) == 1
+
+//@ func durationFromProto
+//@   trusted
+
+//@ func mapConflicts
+//@   trusted
+
+//@ func (*Server).leaseBatchLimit
+//@   trusted
+
+//@ func mapOpError
+//@   ensures [C04:conflict_is_failed_precondition] opErr != nil && opErr.StatusCode == 409 ==> result == ext("google.golang.org/grpc/status.Error", codes.FailedPrecondition, opErr.Detail)
+//@   ensures [C11:unauthorized_is_unauthenticated] opErr != nil && opErr.StatusCode == 401 ==> result == ext("google.golang.org/grpc/status.Error", codes.Unauthenticated, opErr.Detail)
+//@   ensures [nil_is_nil] opErr == nil ==> result == nil
+
+//@ func (*Server).resolveRoute
+//@   requires s != nil
+
+//@ func (*Server).resolveAndAuthorize
+//@   requires s != nil
+//@   modifies authzCalls, authzResult, authzEndpoint, authzPassed
+//@   sets authzPassed := ite(result1 == nil, old(authzPassed) + 1, old(authzPassed))
+//@   calls resolveRoute requires [C11:resolve_only_when_authorized] s.Authorize == nil || (authzCalls == old(authzCalls) + 1 && authzResult && authzEndpoint == endpoint)
+//@   ensures [C11:refused_is_unauthenticated] s.Authorize != nil && !authzResult ==> result1 == ext("google.golang.org/grpc/status.Error", codes.Unauthenticated, "request is not authorized") && result0 == ""
+//@   ensures [C11:authorizer_sees_the_addressed_endpoint] s.Authorize != nil ==> authzCalls == old(authzCalls) + 1 && authzEndpoint == endpoint
+//@   ensures [C11:pass_recorded] (result1 == nil ==> authzPassed == old(authzPassed) + 1) && (result1 != nil ==> authzPassed == old(authzPassed))
+
+//@ func (*Server).Ack
+//@   requires s != nil
+//@   modifies *
+//@   calls AckSingle requires [C11:ack_only_after_authorize] authzPassed == old(authzPassed) + 1
+//@   calls AckBatch requires [C11:ackbatch_only_after_authorize] authzPassed == old(authzPassed) + 1
+
+//@ func (*Server).Nack
+//@   requires s != nil
+//@   modifies *
+//@   calls NackSingle requires [C11:nack_only_after_authorize] authzPassed == old(authzPassed) + 1
+//@   calls NackBatch requires [C11:nackbatch_only_after_authorize] authzPassed == old(authzPassed) + 1
+
+//@ func (*Server).Extend
+//@   requires s != nil
+//@   modifies *
+//@   calls Extend requires [C11:extend_only_after_authorize] authzPassed == old(authzPassed) + 1
+
+//@ func (*Server).Dequeue
+//@   requires s != nil
+//@   modifies *
+//@   calls Dequeue requires [C11:dequeue_only_after_authorize] authzPassed == old(authzPassed) + 1
